@@ -10,3 +10,9 @@ Model/Access.vos Model/Access.vok Model/Access.required_vos: Model/Access.v Gen/
 Proofs/AccessProofs.vo Proofs/AccessProofs.glob Proofs/AccessProofs.v.beautified Proofs/AccessProofs.required_vo: Proofs/AccessProofs.v Gen/Facts.vo Model/Access.vo
 Proofs/AccessProofs.vio: Proofs/AccessProofs.v Gen/Facts.vio Model/Access.vio
 Proofs/AccessProofs.vos Proofs/AccessProofs.vok Proofs/AccessProofs.required_vos: Proofs/AccessProofs.v Gen/Facts.vos Model/Access.vos
+Properties/C12.vo Properties/C12.glob Properties/C12.v.beautified Properties/C12.required_vo: Properties/C12.v Gen/Facts.vo Model/Access.vo Proofs/AccessProofs.vo
+Properties/C12.vio: Properties/C12.v Gen/Facts.vio Model/Access.vio Proofs/AccessProofs.vio
+Properties/C12.vos Properties/C12.vok Properties/C12.required_vos: Properties/C12.v Gen/Facts.vos Model/Access.vos Proofs/AccessProofs.vos
+Corr/C12.vo Corr/C12.glob Corr/C12.v.beautified Corr/C12.required_vo: Corr/C12.v Model/Access.vo Corr/Common.vo
+Corr/C12.vio: Corr/C12.v Model/Access.vio Corr/Common.vio
+Corr/C12.vos Corr/C12.vok Corr/C12.required_vos: Corr/C12.v Model/Access.vos Corr/Common.vos
